@@ -4,6 +4,7 @@ package core
 import (
 	"fmt"
 	"io/ioutil"
+	"math"
 	"reflect"
 
 	"github.com/mattn/anko/env"
@@ -55,6 +56,10 @@ func Import(e *env.Env) *env.Env {
 		arr := []int64{}
 		for i := start; (step > 0 && i < stop) || (step < 0 && i > stop); i += step {
 			arr = append(arr, i)
+			// stop before i += step would wrap around int64
+			if (step > 0 && i > math.MaxInt64-step) || (step < 0 && i < math.MinInt64-step) {
+				break
+			}
 		}
 		return arr
 	})
